@@ -397,3 +397,63 @@ Section Print.
   (* jbn_as_json *)
   Definition as_json (v : jval) : res (list Z) := print_node 0 v.
 End Print.
+
+(* ---------------------------------------------------------------- jbl_as_json: printer of the binary form (src/json/iwjson.c _jbl_as_json).
+   Seen from the text it differs from the node printer in two ways: the indentation is always one space per
+   level (the INDENT2/INDENT4 bits are ignored) and strings and member names are written with len = -1, i.e. up
+   to their first NUL.  The binary encoding itself (iwbinn.c) is not part of this model: `v` is the value the
+   binn buffer holds. *)
+Fixpoint cstr0 (s : list Z) : list Z :=
+  match s with [] => [] | c :: r => if c =? 0 then [] else c :: cstr0 r end.
+
+Section PrintJbl.
+  Variable fo : Z -> list Z.
+  Variable pf : Z.
+
+  Fixpoint print_jbl (lvl : Z) (v : jval) : res (list Z) :=
+    let pretty := has pf JBL_PRINT_PRETTY in
+    match v with
+    | JNull => Ok [110; 117; 108; 108]
+    | JBool true => Ok [116; 114; 117; 101]
+    | JBool false => Ok [102; 97; 108; 115; 101]
+    | JI64 n => write_int n
+    | JF64 b => Ok (fo b)
+    | JStr s => write_json_string pf (cstr0 s)
+    | JArr items =>
+      let open := [91] ++ (match items with [] => [] | _ => if pretty then [10] else [] end) in
+      let close := (match items with [] => [] | _ => if pretty then rep 32 lvl else [] end) ++ [93] in
+      match (fix go (l : list jval) : res (list Z) :=
+               match l with
+               | [] => Ok []
+               | x :: r =>
+                 bind2 (print_jbl (lvl + 1) x) (go r) (fun a b =>
+                   (if pretty then rep 32 (lvl + 1) else []) ++ a
+                   ++ (match r with [] => [] | _ => [44] end) ++ (if pretty then [10] else []) ++ b)
+               end) items with
+      | Err e => Err e
+      | Ok body => Ok (open ++ body ++ close)
+      end
+    | JObj members =>
+      let open := [123] ++ (match members with [] => [] | _ => if pretty then [10] else [] end) in
+      let close := (match members with [] => [] | _ => if pretty then rep 32 lvl else [] end) ++ [125] in
+      match (fix go (l : list (list Z * jval)) : res (list Z) :=
+               match l with
+               | [] => Ok []
+               | (k, x) :: r =>
+                 match write_json_string pf (cstr0 k) with
+                 | Err e => Err e
+                 | Ok kt =>
+                   bind2 (print_jbl (lvl + 1) x) (go r) (fun a b =>
+                     (if pretty then rep 32 (lvl + 1) else []) ++ kt
+                     ++ (if pretty then [58; 32] else [58]) ++ a
+                     ++ (match r with [] => [] | _ => [44] end) ++ (if pretty then [10] else []) ++ b)
+                 end
+               end) members with
+      | Err e => Err e
+      | Ok body => Ok (open ++ body ++ close)
+      end
+    end.
+
+  (* jbl_as_json *)
+  Definition jbl_as_json (v : jval) : res (list Z) := print_jbl 0 v.
+End PrintJbl.
